@@ -34,14 +34,19 @@ type ledger struct {
 	Seq       int
 	Hashes    map[uint64]string // voted height -> hash (append-only)
 	Tip       uint64
+	Terminal  map[uint64]string // withdrawal id -> paid | refund (each id gets exactly one notice)
+	Dup       []string
 }
 
 func newLedger(tip uint64) *ledger {
-	return &ledger{Owed: map[string][]string{}, Delivered: map[string]int{}, Hashes: map[uint64]string{}, Tip: tip}
+	return &ledger{Owed: map[string][]string{}, Delivered: map[string]int{}, Hashes: map[uint64]string{}, Tip: tip, Terminal: map[uint64]string{}}
 }
 
 func (l *ledger) Clone() enga.Cloner {
-	c := &ledger{Owed: map[string][]string{}, Delivered: map[string]int{}, BridgeNonce: l.BridgeNonce, LockNonce: l.LockNonce, Seq: l.Seq, Hashes: map[uint64]string{}, Tip: l.Tip}
+	c := &ledger{Owed: map[string][]string{}, Delivered: map[string]int{}, BridgeNonce: l.BridgeNonce, LockNonce: l.LockNonce, Seq: l.Seq, Hashes: map[uint64]string{}, Tip: l.Tip, Terminal: map[uint64]string{}}
+	for k, v := range l.Terminal {
+		c.Terminal[k] = v
+	}
 	for k, v := range l.Owed {
 		c.Owed[k] = append([]string{}, v...)
 	}
@@ -56,6 +61,16 @@ func (l *ledger) Clone() enga.Cloner {
 }
 
 func (l *ledger) owe(kind, item string) { l.Owed[kind] = append(l.Owed[kind], item) }
+
+// terminal records the single terminal notice of a withdrawal; a second one is a violation
+// (the consensus layer must not accept anything that owes the execution layer another notice).
+func (l *ledger) terminal(id uint64, what string) {
+	if prev, ok := l.Terminal[id]; ok {
+		l.Dup = append(l.Dup, fmt.Sprintf("second-terminal-notice-for-withdrawal: id %d already %s, now %s again", id, prev, what))
+		return
+	}
+	l.Terminal[id] = what
+}
 
 var caps = map[string]int{"hash": 1, "deposit": 8, "withdrawal": 8, "reward": 16, "unlock": 16}
 
@@ -169,10 +184,12 @@ func c06Account(l *ledger, parent *c06Pre, child *enga.World, res *enga.Result) 
 			case *bitcointypes.MsgFinalizeWithdrawal:
 				pb := parent.batches[m.Pid]
 				for i, id := range pb {
+					l.terminal(id, "paid")
 					l.owe("withdrawal", fmt.Sprintf("paid:%d:%x:%d:%s", id, m.Txid, i, wei(90000)))
 				}
 			case *bitcointypes.MsgApproveCancellation:
 				for _, id := range m.Id {
+					l.terminal(id, "refund")
 					l.owe("withdrawal", fmt.Sprintf("refund:%d", id))
 				}
 			}
@@ -185,6 +202,7 @@ func c06Account(l *ledger, parent *c06Pre, child *enga.World, res *enga.Result) 
 			case e.Kind == "req:withdraw":
 				if e.Var == "bad-address" {
 					for i := 0; i < e.N; i++ {
+						l.terminal(wid+uint64(i), "refund")
 						l.owe("withdrawal", fmt.Sprintf("refund:%d", wid+uint64(i)))
 					}
 				}
@@ -222,6 +240,8 @@ func c06Account(l *ledger, parent *c06Pre, child *enga.World, res *enga.Result) 
 		l.owe("unlock", fmt.Sprintf("%d:1", u.ID))
 	}
 	l.Unlocks = still
+	bad = append(bad, l.Dup...)
+	l.Dup = nil
 	// ---- voted heights: append-only, gap-free
 	k := child.N.App.BitcoinKeeper
 	ctx := child.N.Ctx()
@@ -262,6 +282,7 @@ func c06Menu(thorough bool) []enga.ABlock {
 		{FailEth: true, Events: []enga.Event{{Kind: "tx:deposits", N: 1}}},
 		{Abandon: 2, Events: []enga.Event{{Kind: "tx:hashes", N: 1}}},
 		{Restart: true},
+		{Events: []enga.Event{{Kind: "tx:approve", Var: "again"}}}, // late duplicate approval of refunded withdrawals
 	}
 	if thorough {
 		m = append(m,
